@@ -72,6 +72,9 @@ class Alphabet:
             self.ops['uh%d' % n] = [op_update(ctx, n, signed=signed, hash='00' * 32)]
             self.ops['uj%d' % n] = [op_update(ctx, n, signed=signed, dl='@junkdl')]
             self.ops['uns%d' % n] = [op_update(ctx, n, signed=False)]     # unsigned offer
+            # the same patch under another spelling of its metadata: the digest in upper-case hex (hex::decode takes both;
+            # the record keeps the server's spelling, so two records of one number and one content can differ as text)
+            self.ops['uU%d' % n] = [op_update(ctx, n, signed=signed, hash=ctx.p[str(n)]['hash'].upper())]
             self.ops['dF%d' % n] = ['op dmg delfile %d' % n]
             self.ops['dD%d' % n] = ['op dmg deldir %d' % n]
             self.ops['dT%d' % n] = ['op dmg setart %d @trunc%d' % (n, n)]
